@@ -91,5 +91,7 @@ Definition for_trace (c : cfg) : list ev :=
         Outdent 1]
   ++ opt rec
        ([ReturnBuffer LoopF; Outdent 1; StartWrite Outer; W (if asy then WAwaitCallLoop else WCallLoop)]
-        ++ opt asy [W WAiterOpen] ++ [Visit Iter Outer] ++ opt asy [W WClose] ++ [W WLoopArg; EndWrite])
+        (* the iterable is handed to loop(...) as it is, also in async mode (a48aab6): AsyncLoopContext or the
+           loop filter function adapts it, a sized iterable keeps its len() *)
+        ++ [Visit Iter Outer; W WLoopArg; EndWrite])
   ++ [End].
